@@ -165,6 +165,9 @@ func vBuildObjectSet(d *vPhaseDouble) *adapters.ObjectSetAdapter {
 	os.Name, os.Namespace, os.UID = "me", "ns", "uid-me"
 	os.Generation = verifrt.Int64("generation")
 	os.Status.Revision = 3
+	// lifecycle: the phases reconciler also runs for paused ObjectSets (status only)
+	os.Spec.LifecycleState = corev1alpha1.ObjectSetLifecycleState(verifrt.StringFrom("lifecycle",
+		string(corev1alpha1.ObjectSetLifecycleStateActive), string(corev1alpha1.ObjectSetLifecycleStatePaused)))
 	n := verifrt.IntRange("nPhases", 1, verifrt.Bound("maxPhases", 2))
 	for k := 0; k < n; k++ {
 		name := vPhaseNames[k]
